@@ -16,9 +16,23 @@ clause (a) is applied to whatever object reaches the probe.
 from __future__ import annotations
 
 import ast
+import enum
+import itertools
+import re
 
 from vp import harness, instrument, prelude, ty, tygen, universe
 from vp.ty import Ty
+
+
+class Perm(enum.Flag):
+    """A flag enumeration: besides the named members R and W, Perm(0) and Perm.R | Perm.W are instances of it."""
+
+    R = 1
+    W = 2
+
+
+ty._CLS_NAMES.setdefault(Perm, "Perm")  # source spelling for the generated modules (they import Perm from here)
+PERM_ITEMS = [universe.Item(s_, eval(s_, {"Perm": Perm})) for s_ in ("Perm.R", "Perm.W", "Perm.R | Perm.W", "Perm(0)")]
 
 ID = "C02"
 LEVEL = "exploration"
@@ -56,6 +70,14 @@ SHAPE_EVERY = 6  # one (V, condition) pair in SHAPE_EVERY is additionally tested
 I, S, F, BL, NONE = ty.Cls(int), ty.Cls(str), ty.Cls(float), ty.Cls(bool), ty.NONE
 A, Bc, C = ty.Cls(prelude.A), ty.Cls(prelude.B), ty.Cls(prelude.C)
 COLOR, NUM = ty.Cls(prelude.Color), ty.Cls(prelude.Num)
+PERM = ty.Cls(Perm)
+
+# declared types that already carry a custom check: Annotated[int, Gt(0)], Annotated[tuple[int, ...], MinLen(1)], ...
+ANNOTATED_TYPES = [
+    ty.Refine(I, [("gt", 0)]), ty.Refine(ty.VarTuple(I), [("minlen", 1)]), ty.Refine(I, [("ge", 0), ("le", 2)]),
+    ty.Refine(F, [("lt", 1.5)]), ty.Refine(S, [("maxlen", 1)]), ty.Refine(ty.List(I), [("minlen", 1), ("maxlen", 2)]),
+]
+_CHECK_SRC = {"gt": "Gt", "ge": "Ge", "lt": "Lt", "le": "Le", "minlen": "MinLen", "maxlen": "MaxLen"}
 
 BASE_TYPES = [
     I, BL, F, ty.Cls(complex), S, ty.Cls(bytes), NONE, ty.OBJECT, A, Bc, C, COLOR, NUM,
@@ -71,15 +93,23 @@ BASE_TYPES = [
     ty.TypeOf(A), ty.TypeOf(ty.Union(A, C)), ty.TypeOf(I), ty.Union(ty.TypeOf(A), NONE), ty.Union(S, ty.List(S)),
     ty.TypeOf(F), ty.TypeOf(ty.Cls(complex)), ty.Union(ty.Cls(complex), NONE),
     ty.TypedDictT("TD1", {"a": (I, True), "b": (S, False)}),
+    # added with the condition sequences: declared Annotated[...] types and a flag enumeration
+    ANNOTATED_TYPES[0], ANNOTATED_TYPES[1], ANNOTATED_TYPES[2], PERM, ty.Union(PERM, NONE),
 ]
 
 CLASSES = [("int", int), ("str", str), ("float", float), ("bool", bool), ("bytes", bytes), ("complex", complex), ("A", prelude.A),
            ("B", prelude.B), ("C", prelude.C), ("Color", prelude.Color), ("Num", prelude.Num), ("list", list), ("tuple", tuple),
            ("dict", dict), ("object", object), ("type(None)", type(None))]
-LITERALS = ["1", "0", "2", "True", "False", "None", "'a'", "''", "'b'", "1.5", "b'a'", "Color.RED", "Color.GREEN", "Num.ONE", "A", "int"]
+LITERALS = ["1", "0", "2", "True", "False", "None", "'a'", "''", "'b'", "1.5", "b'a'", "Color.RED", "Color.GREEN", "Num.ONE", "A", "int",
+            "Perm.R"]
+# ordering comparisons against a constant (either side): the positive branch is refined to Annotated[V, Gt(k)] etc.
+ORD_CONSTS = ["0", "2", "1.5"]
+ORD_OPS = ("<", "<=", ">", ">=")
 
 HELPERS = '''
-from typing_extensions import TypeIs, TypeGuard
+from typing_extensions import TypeIs, TypeGuard, Annotated
+import annotated_types
+from vp.props.c02 import Perm
 def is_int(x: object) -> TypeIs[int]:
     return isinstance(x, int)
 def is_str(x: object) -> TypeIs[str]:
@@ -173,8 +203,14 @@ class Cond:
         self.pattern = pattern  # match pattern source or None
 
 
-def conditions(rng, thorough: bool) -> list:
+def eval_ns() -> dict:
     ns = dict(ty.eval_ns())
+    ns["Perm"] = Perm
+    return ns
+
+
+def conditions(rng, thorough: bool) -> list:
+    ns = eval_ns()
     out = []
     for name, c in CLASSES:
         out.append(Cond(f"isinstance(x, {name})", "isinstance", ty.Cls(c)))
@@ -203,14 +239,15 @@ def conditions(rng, thorough: bool) -> list:
             out.append(Cond(f"not issubclass(x, ({', '.join(names)}))", "not-issubclass-tuple", tested))
     for lit in LITERALS:
         v = eval(lit, ns)
-        identity_ok = v is None or isinstance(v, (bool, prelude.Color, type)) or lit in ("Num.ONE",)
+        identity_ok = v is None or isinstance(v, (bool, prelude.Color, type, Perm)) or lit in ("Num.ONE",)
         if identity_ok:
             out.append(Cond(f"x is {lit}", "is", ty.Lit(v)))
             out.append(Cond(f"x is not {lit}", "is-not", ty.Lit(v)))
         if not isinstance(v, type):
             out.append(Cond(f"x == {lit}", "eq", ty.Lit(v), eq_lits=(v,)))
             out.append(Cond(f"x != {lit}", "ne", ty.Lit(v), eq_lits=(v,)))
-    for l1, l2 in [("1", "2"), ("'a'", "'b'"), ("1", "'a'"), ("None", "1"), ("Color.RED", "Color.GREEN"), ("True", "None"), ("0", "''")]:
+    for l1, l2 in [("1", "2"), ("'a'", "'b'"), ("1", "'a'"), ("None", "1"), ("Color.RED", "Color.GREEN"), ("True", "None"), ("0", "''"),
+                   ("Perm.R", "Perm.W")]:
         v1, v2 = eval(l1, ns), eval(l2, ns)
         out.append(Cond(f"x in ({l1}, {l2})", "in", ty.Union(ty.Lit(v1), ty.Lit(v2)), eq_lits=(v1, v2)))
         out.append(Cond(f"x not in ({l1}, {l2})", "not-in", ty.Union(ty.Lit(v1), ty.Lit(v2)), eq_lits=(v1, v2)))
@@ -246,10 +283,16 @@ def conditions(rng, thorough: bool) -> list:
     out.append(Cond("is_a(x)", "TypeIs", A))
     out.append(Cond("guard_int(x)", "TypeGuard", I))
     out.append(Cond("callable(x)", "callable", ty.OPAQUE))
+    for op in ORD_OPS:
+        for k in ORD_CONSTS:
+            out.append(Cond(f"x {op} {k}", "ord" + op))
+            out.append(Cond(f"{k} {op} x", "ord-swapped" + op))
+    out.append(Cond("x in ((1,), (2, 3))", "in", ty.Union(ty.Lit((1,)), ty.Lit((2, 3))), eq_lits=((1,), (2, 3))))
+    out.append(Cond("x in ([1], [1, 2])", "in", ty.Union(ty.Lit([1]), ty.Lit([1, 2])), eq_lits=([1], [1, 2])))
     # match patterns (the positive branch is the case body, the negative the fall-through `case _`)
     for name, c in CLASSES[:11]:
         out.append(Cond(None, "match-class", ty.Cls(c), pattern=f"{name}()"))
-    for lit in ["1", "'a'", "None", "True", "Color.RED", "0"]:
+    for lit in ["1", "'a'", "None", "True", "Color.RED", "0", "Perm.R"]:
         v = eval(lit, ns)
         out.append(Cond(None, "match-literal", ty.Lit(v), eq_lits=() if v is None or isinstance(v, bool) else (v,), pattern=lit))
     out.append(Cond(None, "match-sequence", ty.OPAQUE, pattern="[_a, _b]"))
@@ -292,11 +335,54 @@ def applicable(v: Ty, c: Cond) -> bool:
     if c.kind == "issubclass" or "issubclass" in c.kind:
         ms = v.args if v.kind == "Union" else (v,)
         return all(m.kind == "TypeOf" for m in ms)
+    if re.search(r"\bord", c.kind):
+        ms = v.args if v.kind == "Union" else (v,)
+        return all(_orderable(m) for m in ms)
+    text = c.src or c.pattern or ""
+    if "Perm" in text:  # conditions on the flag enumeration: only where a Perm can occur
+        return v.kind == "Object" or PERM in (v.args if v.kind == "Union" else (v,))
+    if "(1,)" in text or "[1]" in text:  # membership in a collection of tuples / lists
+        return v.kind == "Object" or any(_base(m).kind in ("Tuple", "VarTuple", "List") for m in (v.args if v.kind == "Union" else (v,)))
     return True
 
 
+def _base(m: Ty) -> Ty:
+    return m.args[0] if m.kind == "Refine" else m
+
+
+def _orderable(m: Ty) -> bool:
+    """Every member of m can be compared with an int or float constant by < <= > >=."""
+    if m.kind == "Refine":
+        return _orderable(m.args[0])
+    if m.kind == "Cls":
+        return m.extra in (int, float, bool, prelude.Num)
+    return m.kind == "Lit" and isinstance(m.extra.v, (int, float))
+
+
+def render_ann(v: Ty, style: int = 0) -> str:
+    """ty.render, plus the source spelling of declared Annotated[...] types (top level or as a union member)."""
+    if v.kind == "Refine":
+        checks = ", ".join(f"annotated_types.{_CHECK_SRC[op]}({bound!r})" for op, bound in v.extra)
+        return f"Annotated[{ty.render(v.args[0], style)}, {checks}]"
+    if v.kind == "Union" and any(a.kind == "Refine" for a in v.args):
+        return "Union[" + ", ".join(render_ann(a, style) for a in v.args) + "]"
+    return ty.render(v, style)
+
+
+def inhab(v: Ty, rng, limit: int) -> list:
+    """universe.inhabitants, extended to the declared Annotated[...] types and to the flag enumeration."""
+    if v.kind == "Refine":
+        return [it for it in inhab(v.args[0], rng, 40) if ty.member(it.obj, v) is True][:limit]
+    if v.kind == "Union" and any(a.kind == "Refine" or a == PERM for a in v.args):
+        per = max(2, limit // len(v.args))
+        return [it for a in v.args for it in inhab(a, rng, per)]
+    if v == PERM:
+        return list(PERM_ITEMS)
+    return universe.inhabitants(v, rng, limit)
+
+
 def render_func(name: str, v: Ty, c: Cond, style: int, shape=None) -> list:
-    ann = ty.render(v, style)
+    ann = render_ann(v, style)
     if shape is not None:
         pos, neg = "return __probe(1, x)", "return __probe(0, x)"
         if shape in LOOPS:
@@ -335,7 +421,7 @@ def render_func(name: str, v: Ty, c: Cond, style: int, shape=None) -> list:
 def cross_type_equal(o, lits) -> bool:
     for l in lits:
         try:
-            if o == l and type(o) is not type(l):
+            if o == l and (type(o) is not type(l) or isinstance(l, (tuple, list)) and ty.lit_equal(o, l) is not True):
                 return True
         except Exception:  # noqa: BLE001
             return True
@@ -421,7 +507,7 @@ def check_batch(ctx, batch) -> None:
             always = {"value_always_true": 1, "type_always_true": 1, "type_does_not_support_bool": None}
             claimed_always_true = any(d.code in ("value_always_true", "type_always_true") for d in ds)
             rebinds = shape_rebinds(shape)
-            inh = universe.inhabitants(v, ctx.rng, 8 if rebinds else 10)
+            inh = inhab(v, ctx.rng, 8 if rebinds else 10)
             f = getattr(ins.module, f"f{i}")
             taken = {0: [], 1: []}
             # argument tuples: (x,) - or, when the shape rebinds x from y on the paths selected by r, (x, y, r)
@@ -454,7 +540,7 @@ def check_batch(ctx, batch) -> None:
                     if m is None:
                         ctx.count("membership_unknown")
                     elif m is False:
-                        key = lost_key(c, tag, value, v, t, shape, stored_condition_value(fn))
+                        key = lost_key(c, tag, value, v, t, shape, stored_condition_value(fn), subject_types_at_tests(fn))
                         if shape is None:
                             what = f"x: {ty.render(v)}; condition `{cond_text(c)}` is {bool(tag)} for {it.src}, but the {'positive' if tag else 'negative'} branch narrows x to {val}"
                         else:
@@ -621,12 +707,16 @@ def promoted_numeric_failing_isinstance(o, v: Ty, tested) -> bool:
     return False
 
 
-def lost_key(c, tag, o, v: Ty, t: Ty, shape=None, okval=None) -> str:
+def lost_key(c, tag, o, v: Ty, t: Ty, shape=None, okval=None, mids=()) -> str:
     prims = set(prim_kinds(c.kind).split("+"))
     if prims & TRUTHY_KINDS and nominally_always_true(o, v):
         return "truthiness|falsy-member-of-type-assumed-always-true"
     if in_intersection_of_unrelated_classes(o, v, c.tested):
         return "intersection|instance-of-two-unrelated-classes-is-narrowed-away"
+    if unmirrored_bound((c,), o, [t] + list(mids)):
+        return UNMIRRORED_KEY
+    if dropped_flag((c,), o, t):
+        return FLAG_KEY
     # the stored condition's constraint is added more than once at the node that tests it: twice in one visit when
     # the condition's value is a union whose members each carry it, once per visit of a loop body
     if okval is not None and t.kind == "Never" and (condition_carried_by_each_union_member(okval) or shape in LOOPS and carries_constraint(okval)):
@@ -665,6 +755,480 @@ def wit(v, c, style, obj_src, shape=None, call=None):
             "eq_lits": [ty.lit_source(l) for l in c.eq_lits], "obj": obj_src, "guard": c.guard}
 
 
+# =====================================================================================================================
+# Condition SEQUENCES (the second condition tested inside each branch of the first) and COMPOSITE subjects (x.a.b.c,
+# x[0]['k'].a ... with an assignment to a prefix between the test and the read). Both are rendered as functions with
+# tagged probes, executed on inhabitants and judged by run_cases().
+
+SEQ_TYPES = [
+    I, F, BL, S, NUM, COLOR, ty.OBJECT, ty.Union(I, NONE), ty.Union(I, S), ty.Union(I, S, NONE), ty.Union(F, I), ty.Union(F, S),
+    ty.Union(ty.Lit(1), ty.Lit(2)), ty.Union(ty.Lit("a"), ty.Lit("b")), ty.Union(ty.Lit(1), ty.Lit("a"), NONE),
+    ty.Union(A, C), ty.Union(A, NONE), ty.Union(COLOR, NONE), ty.Union(BL, S), ty.VarTuple(I), ty.Tuple(I, S),
+    ty.Union(ty.Tuple(I), ty.Tuple(I, I)), ty.List(I), ty.Union(ty.List(I), NONE), ty.Union(S, ty.List(S)), ty.Dict(S, I),
+    ty.Union(S, ty.Cls(bytes)), ty.TypeOf(ty.Union(A, C)), ty.TypeOf(I), ty.TypeOf(F), PERM, ty.Union(PERM, NONE),
+] + ANNOTATED_TYPES
+
+# declared types of the LEAF of a composite subject
+COMP_LEAVES = [
+    ty.Union(I, NONE), ty.Union(I, S), ty.Union(A, NONE), ty.Union(COLOR, NONE), ty.Union(ty.Lit(1), ty.Lit(2)),
+    ty.Union(S, NONE), ty.Union(A, C), ty.Union(ty.List(I), NONE), ty.Union(BL, S), ty.Union(F, I),
+]
+LINK_SRC = {"a": ".a", "l": "[0]", "d": "['k']"}
+SIBLING_SRC = {"a": ".s", "l": "[1]", "d": "['z']"}
+LINK_NAME = {"a": "attr", "l": "list", "d": "dict"}
+ASSIGN_FORMS = ["plain", "unpack", "for-target", "on-some-paths"]
+UNMIRRORED_KEY = "ordering-comparison|constant-on-the-left-refines-with-the-written-operator-instead-of-the-mirrored-one"
+FLAG_KEY = "enum-flag|failed-equality-expands-the-class-into-its-named-members-and-drops-combined-and-empty-flags"
+
+
+def _subst(src: str, subject: str) -> str:
+    return re.sub(r"\bx\b", subject, src)
+
+
+_COND_CODE = {}
+
+
+def _holds(c: Cond, obj, ns) -> object:
+    """CPython's verdict of the condition on obj (None when it raises)."""
+    code = _COND_CODE.get(c.src)
+    if code is None:
+        code = _COND_CODE[c.src] = compile(c.src, "<cond>", "eval")
+    try:
+        return bool(eval(code, ns, {"x": obj}))
+    except Exception:  # noqa: BLE001
+        return None
+
+
+_HELPER_NS = None
+
+
+def helper_ns() -> dict:
+    global _HELPER_NS
+    if _HELPER_NS is None:
+        ns = eval_ns()
+        exec("import typing\n" + HELPERS, ns)
+        _HELPER_NS = ns
+    return _HELPER_NS
+
+
+class SeqCase:
+    """def f(x: V): if c1: (if c2: probe 3 else: probe 2) else: (if c2: probe 1 else: probe 0)."""
+
+    shape = "seq"
+    tags = (0, 1, 2, 3)
+
+    def __init__(self, v: Ty, c1: Cond, c2: Cond, style: int = 0):
+        self.v, self.c1, self.c2, self.style = v, c1, c2, style
+        self.conds = (c1, c2)
+        self.eq_lits = tuple(c1.eq_lits) + tuple(c2.eq_lits)
+        self.kind = f"{prim_kinds(c1.kind)}>{prim_kinds(c2.kind)}"
+
+    def lines(self, name, classes, header) -> list:
+        return [f"def {name}(x: {render_ann(self.v, self.style)}):",
+                f"    if {self.c1.src}:", f"        if {self.c2.src}:", "            return __probe(3, x)", "        else:", "            return __probe(2, x)",
+                "    else:", f"        if {self.c2.src}:", "            return __probe(1, x)", "        else:", "            return __probe(0, x)"]
+
+    def calls(self, module, rng):
+        for it in inhab(self.v, rng, 10):
+            yield (it.obj,), it.src, [it]
+
+    def allowed(self):
+        ts = [c.tested for c in self.conds if c.tested is not None]
+        return None if any(t.kind == "Opaque" for t in ts) else ty.Union(self.v, *ts)
+
+    def branch(self, tag) -> str:
+        return f"{'pos' if tag & 2 else 'neg'}>{'pos' if tag & 1 else 'neg'}"
+
+    def describe(self) -> str:
+        return f"x: {ty.render(self.v)}; `{self.c1.src}` then, inside each of its branches, `{self.c2.src}`"
+
+    def key_head(self) -> str:
+        return f"seq|{self.kind}"
+
+    def distinct(self):
+        return (sorted(ty.kinds(self.v)), "seq", self.c1.kind, self.c2.kind)
+
+    def witness(self, obj_src):
+        return {"shape": "seq", "declared": ty.render(self.v, 0), "style": self.style, "c1": cond_wit(self.c1), "c2": cond_wit(self.c2), "obj": obj_src}
+
+
+class CompCase:
+    """def f(x: T0, y: Tp[, r: bool]): if c(<chain of x>): <prefix> = y; probe(1, <chain>) else: <prefix> = y; probe(0, <chain>).
+    links: string over a (attribute .a), l (list index [0]), d (dict key ['k']); the leaf is declared V.
+    assign: None | ("prefix", p) with 0 <= p <= depth (0 = the root variable, depth = the chain itself) |
+    ("sibling", j) with 1 <= j <= depth (the neighbour slot of link j: .s, [1], ['z'])."""
+
+    shape = "composite"
+    tags = (0, 1)
+
+    def __init__(self, v: Ty, links: str, assign, form: str, c: Cond, style: int = 0):
+        self.v, self.links, self.assign, self.form, self.c, self.style = v, links, assign, form, c, style
+        self.conds = (c,)
+        self.eq_lits = tuple(c.eq_lits)
+        self.depth = len(links)
+        self.chain = "x" + "".join(LINK_SRC[k] for k in links)
+        self.kind = prim_kinds(c.kind)
+        self.cls_names = {}
+
+    def role(self) -> str:
+        if self.assign is None:
+            return "none"
+        what, n = self.assign
+        if what == "sibling":
+            return "sibling-of-the-chain" if n == self.depth else "sibling-of-a-prefix"
+        return "root" if n == 0 else "the-chain-itself" if n == self.depth else "parent" if n == self.depth - 1 else "interior-prefix"
+
+    def level_ann(self, level: int, classes, header) -> str:
+        """Annotation of the object `level` links below the root (level == depth: the leaf)."""
+        ann = render_ann(self.v, self.style)
+        for i in range(self.depth, level, -1):
+            k = self.links[i - 1]
+            if k == "a":
+                if ann not in classes:
+                    name = classes[ann] = f"K{len(classes)}"
+                    header += [f"class {name}:", f"    a: {ann}", f"    s: {ann}",
+                               f"    def __init__(self, a: {ann}, s: {ann}) -> None:", "        self.a = a", "        self.s = s", ""]
+                self.cls_names[i] = classes[ann]
+                ann = classes[ann]
+            else:
+                ann = f"List[{ann}]" if k == "l" else f"Dict[str, {ann}]"
+        return ann
+
+    def target(self):
+        if self.assign is None:
+            return None, None
+        what, n = self.assign
+        if what == "prefix":
+            return "x" + "".join(LINK_SRC[k] for k in self.links[:n]), n
+        return "x" + "".join(LINK_SRC[k] for k in self.links[: n - 1]) + SIBLING_SRC[self.links[n - 1]], n
+
+    def lines(self, name, classes, header) -> list:
+        root = self.level_ann(0, classes, header)
+        tgt, level = self.target()
+        sig = f"def {name}(x: {root}"
+        if tgt is not None:
+            sig += f", y: {self.level_ann(level, classes, header)}" + (", r: bool" if self.form == "on-some-paths" else "")
+        if tgt is None:
+            asg = []
+        elif self.form == "unpack":
+            asg = [f"{tgt}, _u = y, 0"]
+        elif self.form == "for-target":
+            asg = [f"for {tgt} in [y]:", "    pass"]
+        elif self.form == "on-some-paths":
+            asg = ["if r:", f"    {tgt} = y"]
+        else:
+            asg = [f"{tgt} = y"]
+        out = [sig + "):", f"    if {_subst(self.c.src, self.chain)}:"]
+        out += ["        " + l for l in asg] + [f"        return __probe(1, {self.chain})", "    else:"]
+        out += ["        " + l for l in asg] + [f"        return __probe(0, {self.chain})"]
+        return out
+
+    def build(self, module, level: int, leaf):
+        """A fresh object for `level` whose chain ends in leaf (neighbour slots hold independent copies)."""
+        def mk(i):
+            if i == self.depth:
+                return leaf
+            k = self.links[i]
+            if k == "a":
+                return getattr(module, self.cls_names[i + 1])(mk(i + 1), mk(i + 1))
+            return [mk(i + 1), mk(i + 1)] if k == "l" else {"k": mk(i + 1), "z": mk(i + 1)}
+        return mk(level)
+
+    def calls(self, module, rng):
+        inh = inhab(self.v, rng, 6)
+        tgt, level = self.target()
+        for a in inh:
+            if tgt is None:
+                yield (self.build(module, 0, a.obj),), f"<{self.chain} = {a.src}>", [a]
+                continue
+            for b in inh:
+                for r in ((False, True) if self.form == "on-some-paths" else (None,)):
+                    args = (self.build(module, 0, a.obj), self.build(module, level, b.obj)) + (() if r is None else (r,))
+                    yield args, f"<{self.chain} = {a.src}>, <y holding {b.src}>" + ("" if r is None else f", {r}"), [a, b]
+
+    def allowed(self):
+        t = self.c.tested
+        return None if t is not None and t.kind == "Opaque" else ty.Union(self.v, t) if t is not None else self.v
+
+    def branch(self, tag) -> str:
+        return "pos" if tag else "neg"
+
+    def describe(self) -> str:
+        saved, header = dict(self.cls_names), []
+        body = self.lines("f", {}, header)
+        self.cls_names = saved
+        return "\n".join(header + body)
+
+    def key_head(self) -> str:
+        kinds = {LINK_NAME[k] for k in self.links}
+        return (f"composite|depth{self.depth}|links:{kinds.pop() if len(kinds) == 1 else 'mixed'}|assign:{self.role()}"
+                f"{'' if self.assign is None else '|form:' + self.form}|{self.kind}")
+
+    def distinct(self):
+        return (sorted(ty.kinds(self.v)), "composite", self.links, self.role(), self.form if self.assign else "", self.c.kind)
+
+    def witness(self, obj_src):
+        return {"shape": "composite", "declared": ty.render(self.v, 0), "style": self.style, "links": self.links,
+                "assign": list(self.assign) if self.assign else None, "form": self.form, "c": cond_wit(self.c), "obj": obj_src}
+
+
+def cond_wit(c: Cond) -> dict:
+    return {"src": c.src, "kind": c.kind}
+
+
+def refine_checks(t: Ty) -> list:
+    if t.kind == "Refine":
+        return list(t.extra) + refine_checks(t.args[0])
+    if t.kind == "Union":
+        return [x for a in t.args for x in refine_checks(a)]
+    return []
+
+
+_ORD_OPS = {"<": ("lt", lambda o, k: o < k), "<=": ("le", lambda o, k: o <= k), ">": ("gt", lambda o, k: o > k), ">=": ("ge", lambda o, k: o >= k)}
+
+
+def unmirrored_bound(conds, o, types) -> bool:
+    """Some condition is `k OP x` with the constant on the left, one of the types pyanalyze derived carries the check
+    OP(k) - the written operator, not the mirrored one - and the object (for which `k OP x` holds) fails that check."""
+    for c in conds:
+        for m in re.finditer(r"(?<![\w.)\]])(-?\d+(?:\.\d+)?) (<=|>=|<|>) x\b", c.src or ""):
+            k = float(m.group(1)) if "." in m.group(1) else int(m.group(1))
+            op, fn = _ORD_OPS[m.group(2)]
+            for t in types:
+                if t is None or (op, k) not in refine_checks(t):
+                    continue
+                try:
+                    if not fn(o, k) and fn(k, o):
+                        return True
+                except Exception:  # noqa: BLE001
+                    pass
+    return False
+
+
+def dropped_flag(conds, o, t: Ty) -> bool:
+    """o is an instance of a flag enumeration that is not one of its named members (Perm(0), Perm.R | Perm.W), a
+    condition compares with a named member, and the narrowed type is made of named members only."""
+    if not isinstance(o, enum.Flag) or o in list(type(o).__members__.values()):
+        return False
+    if not any(isinstance(l, enum.Flag) for c in conds for l in c.eq_lits):
+        return False
+    ms = t.args if t.kind == "Union" else (t,)
+    return all(m.kind in ("Lit", "NoneT", "Never") for m in ms)
+
+
+def subject_types_at_tests(fn: ast.FunctionDef, subject: str = "x") -> list:
+    """Types pyanalyze holds for the subject where the conditions are evaluated (`x` inside every if-test)."""
+    out = []
+    for node in ast.walk(fn):
+        if isinstance(node, ast.If):
+            for n in ast.walk(node.test):
+                if isinstance(n, ast.Name) and n.id == subject and hasattr(n, "inferred_value"):
+                    try:
+                        out.append(ty.from_value(n.inferred_value))
+                    except Exception:  # noqa: BLE001
+                        pass
+    return out
+
+
+def case_lost_key(case, tag, o, t: Ty, mids) -> str:
+    prims = set()
+    for c in case.conds:
+        prims |= set(prim_kinds(c.kind).split("+"))
+    if prims & TRUTHY_KINDS and nominally_always_true(o, case.v):
+        return "truthiness|falsy-member-of-type-assumed-always-true"
+    if any(in_intersection_of_unrelated_classes(o, case.v, c.tested) for c in case.conds):
+        return "intersection|instance-of-two-unrelated-classes-is-narrowed-away"
+    if unmirrored_bound(case.conds, o, [t] + list(mids)):
+        return UNMIRRORED_KEY
+    if dropped_flag(case.conds, o, t):
+        return FLAG_KEY
+    return f"lost|{case.key_head()}|{case.branch(tag)}|{type(o).__name__}|narrowed:{tkind(t)}"
+
+
+CHECKER_OVERRIDES = {"unused_variable": False, "missing_return_annotation": False, "missing_parameter_annotation": False,
+                     "suggested_return_type": False, "suggested_parameter_type": False, "implicit_any": False, "missing_return": False}
+REJECT_CODES = {"incompatible_argument", "incompatible_call", "unsupported_operation", "undefined_name", "internal_error",
+                "undefined_attribute", "not_callable", "bad_match", "impossible_pattern", "invalid_annotation", "incompatible_assignment"}
+
+
+def run_cases(ctx, cases) -> None:
+    """cases: SeqCase / CompCase objects; one generated module, checked once, every function executed."""
+    header = ["from vp.prelude import *", "import typing", HELPERS]
+    classes, body = {}, []
+    for i, case in enumerate(cases):
+        body += case.lines(f"f{i}", classes, header) + [""]
+    source = "\n".join(header + body) + "\n"
+    probes = []
+
+    def probe(tag, value):
+        probes.append((tag, value))
+        return value
+
+    try:
+        ins = instrument.Instrumented(source, extra_scope={"__probe": probe}, observed=())
+    except Exception as e:  # noqa: BLE001
+        ctx.count("modules_not_importable")
+        ctx.note(f"module not importable: {e!r}")
+        return
+    try:
+        res = harness.run(source, tree=ins.tree, module=ins.module, annotate=True, mode="all", overrides=CHECKER_OVERRIDES)
+        if res.exception is not None:
+            ctx.count("checker_raised")
+            ctx.note(f"checker raised on a {cases[0].shape} module: {res.exception!r}")
+            return
+        funcs = {n.name: n for n in ins.tree.body if isinstance(n, ast.FunctionDef)}
+        for i, case in enumerate(cases):
+            fn = funcs[f"f{i}"]
+            codes = {d.code for d in res.diags if d.lineno is not None and fn.lineno <= d.lineno <= fn.end_lineno}
+            ctx.count("evaluations")
+            ctx.count("functions")
+            ctx.count(f"{case.shape}_functions")
+            if codes & REJECT_CODES:
+                ctx.count("functions_rejected_by_checker")
+                ctx.histo("rejected_kind", f"{case.shape}:{case.kind}"[:60])
+                continue
+            narrowed = {}
+            for node in ast.walk(fn):
+                if isinstance(node, ast.Call) and isinstance(node.func, ast.Name) and node.func.id == "__probe":
+                    if hasattr(node.args[1], "inferred_value"):
+                        narrowed[node.args[0].value] = (ty.from_value(node.args[1].inferred_value), node.args[1].inferred_value)
+            if not narrowed:
+                ctx.count("branches_not_annotated")
+                continue
+            mids = subject_types_at_tests(fn)
+            f = getattr(ins.module, f"f{i}")
+            reached = set()
+            for args, args_src, leaves in case.calls(ins.module, ctx.rng):
+                if case.eq_lits and any(cross_type_equal(it.obj, case.eq_lits) or has_user_eq(it.obj) for it in leaves):
+                    ctx.count("objects_excluded_cross_type_eq")
+                    continue
+                del probes[:]
+                try:
+                    f(*args)
+                except Exception as e:  # noqa: BLE001
+                    ctx.histo("runtime_exceptions", type(e).__name__)
+                    continue
+                for tag, value in list(probes):
+                    ctx.count("branch_observations")
+                    ctx.count(f"{case.shape}_branch_observations")
+                    reached.add(tag)
+                    if tag not in narrowed:
+                        ctx.count("reached_branch_not_annotated")
+                        continue
+                    t, val = narrowed[tag]
+                    m = ty.member(value, t)
+                    if m is None:
+                        ctx.count("membership_unknown")
+                    elif m is False:
+                        what = (f"{case.describe()}\nf({args_src}) reaches the branch {case.branch(tag)} with the subject = {value!r}, "
+                                f"but pyanalyze narrows it to {val} there")
+                        ctx.violation(case_lost_key(case, tag, value, t, mids), what, case.witness(args_src))
+            allowed = case.allowed()
+            if allowed is not None:
+                for tag, (t, val) in sorted(narrowed.items()):
+                    bad = universe.subset_over_u(t, allowed)
+                    ctx.count("widening_checks")
+                    if bad is not None:
+                        ctx.violation(f"widened|{case.key_head()}|{case.branch(tag)}|{vkind(case.v)}|narrowed:{tkind(t)}",
+                                      f"{case.describe()}\nbranch {case.branch(tag)} narrows the subject to {val}, which admits {bad.src} "
+                                      "(neither in the declared nor in a tested type)", case.witness(bad.src))
+            if case.shape == "seq":
+                ctx.histo("seq_branches_reached", len(reached))
+                ctx.histo("seq_first_kind", prim_kinds(case.c1.kind))
+                inner = [t for t in mids[1:] if t is not None]
+                if any(refine_checks(t) for t in inner):
+                    ctx.count("seq_second_condition_on_refined_subject")
+                    if reached & {3} and prim_kinds(case.c2.kind).startswith("in"):
+                        ctx.count("seq_membership_test_on_refined_subject_taken")
+            else:
+                ctx.histo("composite_depth_x_assign", f"depth{case.depth}:{case.role()}")
+                ctx.histo("composite_links", "".join(sorted(set(case.links))))
+                if case.assign is not None:
+                    ctx.histo("composite_assign_form", case.form)
+                if case.depth == 3 and case.role() == "interior-prefix":
+                    ctx.count("composite_depth3_interior_assignments")
+            v_t = case.v
+            if any(t.kind == "Never" or t != v_t for t, _ in narrowed.values()):
+                ctx.nontrivial(case.distinct())
+    finally:
+        ins.dispose()
+
+
+def seq_work(ctx, conds) -> list:
+    """One (V, c1, c2) per ordered pair of condition kinds (4 in thorough): of 6 candidates drawn for the pair, the one
+    whose four branches are reached by the most inhabitants' outcomes."""
+    by_kind = {}
+    for c in conds:
+        if c.src is not None and "(" not in c.kind:
+            by_kind.setdefault(c.kind, []).append(c)
+    kinds = sorted(by_kind)
+    ns = helper_ns()
+    per_pair = ctx.pick(1, 4)
+    work, idx = [], 0
+    for k1 in kinds:
+        for k2 in kinds:
+            idx += 1
+            if not ctx.mine(idx):
+                continue
+            rng = ctx.rng.__class__(f"C02-seq/{ctx.seed}/{k1}/{k2}")
+            cands = []
+            for _ in range(6 * per_pair):
+                c1, c2 = rng.choice(by_kind[k1]), rng.choice(by_kind[k2])
+                vs = [v for v in SEQ_TYPES if applicable(v, c1) and applicable(v, c2)]
+                if not vs or c1.src == c2.src:
+                    continue
+                v = rng.choice(vs)
+                outcomes = {(_holds(c1, it.obj, ns), _holds(c2, it.obj, ns)) for it in inhab(v, rng, 10)}
+                score = len({o for o in outcomes if None not in o})
+                cands.append((-score, len(cands), v, c1, c2))
+            if not cands:
+                ctx.count("seq_kind_pairs_without_common_type")
+                continue
+            seen = set()
+            for _score, _n, v, c1, c2 in sorted(cands, key=lambda t: t[:2]):
+                sig = (ty.render(v), c1.src, c2.src)
+                if sig not in seen and len(seen) < per_pair:
+                    seen.add(sig)
+                    work.append(SeqCase(v, c1, c2, idx % 2))
+    return work
+
+
+def link_vectors(rng, thorough: bool) -> list:
+    out = []
+    for d in (1, 2, 3):
+        allv = ["".join(p) for p in itertools.product("ald", repeat=d)]
+        pure = [k * d for k in "ald"]
+        mixed = [v for v in allv if v not in pure]
+        out += allv if thorough else pure + (rng.sample(mixed, 1 if d == 2 else 2) if mixed else [])
+    return out
+
+
+def comp_assignments(depth: int) -> list:
+    return [None] + [("prefix", p) for p in range(depth + 1)] + [("sibling", j) for j in range(1, depth + 1)]
+
+
+def comp_work(ctx, conds) -> list:
+    ns = helper_ns()
+    thorough = ctx.tier == "thorough"
+    rng = ctx.rng.__class__(f"C02-composite/{ctx.seed}")  # consumed identically in every shard
+    plain = [c for c in conds if c.src is not None and "(" not in c.kind]
+    work, idx = [], 0
+    for v in COMP_LEAVES:
+        inh = inhab(v, rng, 10)
+        # conditions that separate the inhabitants of the leaf type
+        useful = [c for c in plain if applicable(v, c) and len({_holds(c, it.obj, ns) for it in inh} - {None}) == 2]
+        for links in link_vectors(rng, thorough):
+            for assign in comp_assignments(len(links)):
+                for _ in range(ctx.pick(2, 6)):
+                    idx += 1
+                    c = rng.choice(useful)
+                    form = rng.choice(ASSIGN_FORMS + ["plain"])
+                    if ctx.mine(idx):
+                        work.append(CompCase(v, links, assign, form, c, idx % 2))
+    return work
+
+
+
 def shard(ctx) -> None:
     rng = ctx.rng
     conds = conditions(rng, ctx.tier == "thorough")
@@ -694,17 +1258,57 @@ def shard(ctx) -> None:
                 work.append((v, c, idx % 2, shape))
     for i in range(0, len(work), BATCH):
         check_batch(ctx, work[i : i + BATCH])
+    base_conds = [c for c in conds if "(" not in c.kind]
+    for more in (seq_work(ctx, base_conds), comp_work(ctx, base_conds)):
+        for i in range(0, len(more), BATCH):
+            run_cases(ctx, more[i : i + BATCH])
+
+
+def find_ty(rendered: str):
+    from vp.props.c03 import _find_ty
+
+    for t in BASE_TYPES + SEQ_TYPES + COMP_LEAVES:
+        if ty.render(t, 0) == rendered:
+            return t
+    return _find_ty(rendered)
+
+
+def find_cond(w: dict) -> Cond:
+    import random
+
+    for c in conditions(random.Random(0), False):
+        if c.src == w["src"] and c.kind == w["kind"]:
+            return c
+    raise ValueError(f"unknown condition {w!r}")
 
 
 def replay(witness):
     from vp.core import Ctx
-    from vp.props.c03 import _find_ty
 
     ctx = Ctx(ID, "quick", 0, 0, 1)
-    ns = dict(ty.eval_ns())
+    if witness.get("shape") in ("seq", "composite"):
+        v = find_ty(witness["declared"])
+        if witness["shape"] == "seq":
+            case = SeqCase(v, find_cond(witness["c1"]), find_cond(witness["c2"]), witness.get("style", 0))
+        else:
+            case = CompCase(v, witness["links"], tuple(witness["assign"]) if witness.get("assign") else None, witness["form"],
+                            find_cond(witness["c"]), witness.get("style", 0))
+        run_cases(ctx, [case])
+        for key, lst in ctx.violations.items():
+            return key, lst[0]["what"]
+        return None
+    _find_ty = find_ty
+    ns = eval_ns()
     v = _find_ty(witness["declared"])
-    tested = _find_ty(witness["tested"]) if witness.get("tested") else (ty.OPAQUE if witness["kind"].startswith("match-seq") or witness["kind"] in ("match-mapping", "callable") else None)
-    c = Cond(witness["cond_src"], witness["kind"], tested, tuple(eval(l, ns) for l in witness.get("eq_lits", [])), witness.get("pattern"), witness.get("guard"))
+    import random
+
+    c = None
+    for k in conditions(random.Random(0), False):
+        if (k.src, k.pattern, k.guard, k.kind) == (witness["cond_src"], witness.get("pattern"), witness.get("guard"), witness["kind"]):
+            c = k
+    if c is None:
+        tested = _find_ty(witness["tested"]) if witness.get("tested") else (ty.OPAQUE if witness["kind"].startswith("match-seq") or witness["kind"] in ("match-mapping", "callable") else None)
+        c = Cond(witness["cond_src"], witness["kind"], tested, tuple(eval(l, ns) for l in witness.get("eq_lits", [])), witness.get("pattern"), witness.get("guard"))
     check_batch(ctx, [(v, c, witness.get("style", 0), witness.get("shape"))])
     for key, lst in ctx.violations.items():
         return key, lst[0]["what"]
